@@ -115,14 +115,19 @@ def run(tier, seed, only=None):
     ctx = common.Ctx()
     timeout_ms = 60000 if tier == 'quick' else 600000
 
-    def go():
-        for kind in ('small', 'full'):
-            for mode in ('emit', 'gc+emit', 'emit-twice'):
-                if tier == 'quick' and kind == 'full' and mode != 'emit':
-                    continue
-                run_scenario(ctx, report, kind, customs_spec(kind), mode, timeout_ms)
-    engine.run_in_big_stack(go)
-    report.bounds = {'custom sections': '5 per module: two with symbolic names (constrained only to be uninterpreted), two with equal concrete names, placed before the type section, before the code section and at the end',
+    from obligations import gen
+    gl = gen.generated(tier, seed)
+    items = []
+    for kind in ('small', 'full'):
+        for mode in ('emit', 'gc+emit', 'emit-twice'):
+            if tier == 'quick' and kind == 'full' and mode != 'emit':
+                continue
+            items.append((kind, customs_spec(kind), mode, timeout_ms))
+    for k, (n, sp) in enumerate(gl):
+        items.append((n + '+customs', gen.with_customs(sp, k), ('emit', 'gc+emit', 'emit-twice')[k % 3], timeout_ms))
+    items = [i for i in items if not only or i[0] in only]
+    pc.run_parallel(ctx, report, run_scenario, items)
+    report.bounds = {'generated': gen.bounds_text(tier, len(gl)) + ', each with 1-5 custom sections (symbolic or repeated concrete names, three placements), modes rotated', 'custom sections': '5 per module: two with symbolic names (constrained only to be uninterpreted), two with equal concrete names, placed before the type section, before the code section and at the end',
                      'modes': 'emit; gc then emit; emit twice on the same Module value'}
     report.assumptions = ['payload bytes are opaque tokens (walrus never inspects them; `to_vec` is the identity on the token)', 'symbolic names: not "producers", not "name", no ".debug" prefix']
     report.samples = [o.as_json() for o in report.obligations[:3]]
